@@ -252,7 +252,8 @@ def run(chk: common.Check):
         rule=("obligations = theorems of coq/props/C09.v over R (all charges/pKa/pH, all group lists, all windows/precisions/fuel). "
               "Correspondence: synthetic group vectors (none, acids only, bases only, mixed, non-titratable) x grids x windows x precisions: "
               "profile rows and both pI bit for bit against the float instance; distinct = (group counts, grid, window, precision). "
-              "Search: independent Henderson-Hasselbalch sums and 200-step bisection roots; printed charge table and pI of real structures"),
+              "Search: independent Henderson-Hasselbalch sums and 200-step bisection roots; printed charge table and pI of real structures"
+              " Added in rounds 4-6: precisions down to 1e-12 and not powers of ten, windows up to 450 pH units, groups whose own model pKa differs from their residue type's table entry, formal charges of magnitude other than 1."),
         assumptions=["theorems over R; the float run uses the 10**x values of the same Python process (libm is an oracle)",
                      "total-charge curve must change sign inside the window for the pI claim (as the property says)"],
         trusted=["py2coq translator (validated each run)", "model/Charge.v hand model (validated each run)", "stdlib real-number axioms"])
